@@ -459,6 +459,16 @@ impl TransformerContext {
         Ok(())
     }
 
+    /// Open the scope of `el`: its attributes become local variables, subject to the
+    /// same limit on their length as any other variable.
+    pub fn push_element_scope(&mut self, el: &SvgElement) -> Result<()> {
+        for (name, value) in el.get_attrs() {
+            self.check_var_limit(&name, &value)?;
+        }
+        self.push_element(el);
+        Ok(())
+    }
+
     pub fn push_element(&mut self, el: &SvgElement) {
         let attrs = el.get_attrs();
         self.element_stack.push(el.clone());
